@@ -301,6 +301,8 @@ class GenV(Value):
     def __init__(self, interp, fi, args, kwargs, self_obj, closure):
         self.interp, self.fi, self.args, self.kwargs, self.self_obj, self.closure = interp, fi, list(args), dict(kwargs), self_obj, closure
         self.pos = 0        # how many items have been consumed (next(), a finished for loop)
+        # iterators handed to the generator are consumed by its body: every re-run of the body starts them where they stood at the call
+        self._iter_args = [(a, a.pos) for a in list(args) + list(kwargs.values()) if hasattr(a, 'pos') and isinstance(getattr(a, 'pos'), int)]
 
     def rest(self, limit):
         """(items not yet consumed or None, finished?), consuming them"""
@@ -314,6 +316,8 @@ class GenV(Value):
     def take(self, limit):
         it = self.interp
         ctx = {'items': [], 'limit': limit}
+        for a, p0 in self._iter_args:
+            a.pos = p0
         it._gen_stack.append(ctx)
         finished = True
         try:
